@@ -62,6 +62,13 @@ static int run(char** t, int nt, int g, char* out)
         strcpy(out, (guards_ok(&dst) && guards_ok(&src)) ? "ok " : "GUARD ");
         put_hex(out, &dst); drop(&dst); drop(&src); return 1;
     }
+    if (0 == strcmp(op, "copyself") && nt == 5) {   // overlapping regions of one buffer, byte aligned, destination above source
+        Buf b = mk(t[1], g);
+        const size_t d_off = strtoull(t[2], 0, 10), n = strtoull(t[3], 0, 10), s_off = strtoull(t[4], 0, 10);
+        nunavutCopyBits(b.p + d_off / 8U, 0U, n, b.p, s_off);
+        strcpy(out, guards_ok(&b) ? "ok " : "GUARD ");
+        put_hex(out, &b); drop(&b); return 1;
+    }
     if (0 == strcmp(op, "sat") && nt == 4) {
         sprintf(out, "ok %zu", nunavutSaturateBufferFragmentBitLength(strtoull(t[1], 0, 10), strtoull(t[2], 0, 10), strtoull(t[3], 0, 10)));
         return 1;
